@@ -749,8 +749,15 @@ rt_prop("C01", ["core", "bridge", "hosts"],
         "Proof (Props/C01.lean): when Core::process / process_event returns, the request channel has been handed over completely and "
         "emptied, no emitted event is unapplied, the executor has no runnable or unspawned task (C01_core_quiescent, "
         "C01_handed_over_once, C01_run_all_drains); run_until_settled leaves any non-aborted command with empty ready and spawn "
-        "queues for ANY task behaviour (C01_command_settled); poll_next reports end/pending only with nothing queued. The nested "
-        "instance over all hosted commands is stated (C01_nested_quiescent_goal) but not proved; it is covered by the correspondence "
+        "queues for ANY task behaviour (C01_command_settled); poll_next reports end/pending only with nothing queued. NO LOST "
+        "WAKE-UP over whole runs (core_call_quiescent_flat, process_quiescent_flat, wake_takes_and_queues; scheduling invariant QI, "
+        "Lemmas/Q*.lean): for every app whose update returns commands without combinators (any task program with spawn, join!, "
+        "select!, streams, hand-offs, join/abort handles, builder chains) plus host-free legacy capability tasks, after every "
+        "history of events, resolutions, drops, aborts and probes, every further call returns only when the executor's queues are "
+        "empty and no live un-aborted command has a ready task, an unstarted spawned task, or a queued effect or event — every "
+        "live command is armed with the root waker of its executor task or that task is queued, and every wake takes the waker "
+        "and queues the task. The nested "
+        "instance over commands hosted by other commands is stated (C01_nested_quiescent_goal) but not proved; it is covered by the correspondence "
         "(queue-length hooks, no-op probe after every call) and the oracle clauses effect-deferred-to-later-call / not-quiescent-after-call.",
         goals=["C01_nested_quiescent_goal"])
 rt_prop("C02", ["task", "core", "bridge", "comb"],
